@@ -694,7 +694,7 @@ pub fn run(args: &Args) -> i32 {
     ];
     rep.bound_note = format!("deviation bound {bound} per shape (cuts + delays + partial writes + scheduling share it)");
     let seed = args.seed;
-    let deadline = std::time::Instant::now() + std::time::Duration::from_secs(if thorough { 1500 } else { 35 });
+    let deadline = std::time::Instant::now() + std::time::Duration::from_secs(if thorough { 1500 } else { 55 });
     #[derive(Clone)]
     enum Job {
         Explore(Shape),
